@@ -46,7 +46,7 @@ for D in (1, 2, 3):
     nonempty = ' && '.join('g_n%d > 0 && g_m%d > 0' % (k, k) for k in range(D))
     G = ghosts_fn(D) + [(I64, 'g_m%d' % k) for k in range(D)]
     st = [Stub(r'bool std::equal<boost::multi::elements_iterator_t<double const\*, boost::multi::layout_t<%dl, long> >, .*' % D, record=[('g_eq_f1', 0, EIc(D)), ('g_eq_l1', 1, EIc(D)), ('g_eq_f2', 2, EIc(D))], ret='g_eq_ret', count='g_eq_calls')]
-    called = ('g_eq_calls == 1 && g_eq_f1.n_ == 0 && g_eq_l1.n_ == %s && g_eq_f2.n_ == 0 && %s && %s && %s'
+    called = ('g_eq_f1.n_ == 0 && g_eq_l1.n_ == %s && g_eq_f2.n_ == 0 && %s && %s && %s'
               % (total(D, 'g_m'), same_range('g_eq_f1', 'other', D), same_range('g_eq_l1', 'other', D), same_range('g_eq_f2', 'self', D)))
     for nm, op, pos in (('eq', '==', True), ('ne', '!=', False)):
         Check('Q%d_%s' % (D, nm), ['C07'], 'compare', params=['self', 'other'],
@@ -55,10 +55,56 @@ for D in (1, 2, 3):
               wrapper=('bool', 'CS<%d> const* self, CS<%d> const* other' % (D, D), 'return *self %s *other;' % op),
               cxx={'self': SUB(D), 'other': SUB(D)}, ghosts=G, stubs=st, mode='uf',
               requires=[view_ok('self', D, 'g_n'), view_ok('other', D, 'g_m')], lemmas=lemmas(D),
-              ensures=[('equal extents: decided by std::equal over the two complete element ranges, in canonical order',
-                        'IMPLIES(%s, RET == %sg_eq_ret && %s)' % (all_eq, '' if pos else '!', called)),
+              ensures=[('[delegation] equal extents: the element-wise part is delegated to exactly one call of std::equal', 'IMPLIES(%s, g_eq_calls == 1)' % all_eq),
+                       ('equal extents: std::equal receives the two complete element ranges (canonical order) and its verdict is returned%s' % ('' if pos else ' negated'),
+                        'IMPLIES(%s && g_eq_calls == 1, RET == %sg_eq_ret && %s)' % (all_eq, '' if pos else '!', called)),
                        ('different extents (non-empty operands): %s whatever the elements' % ('false' if pos else 'true'),
                         'IMPLIES(!(%s) && %s, RET == %d)' % (all_eq, nonempty, 0 if pos else 1))],
               covers=[all_eq + ' && g_n0 > 1', '!(%s) && %s' % (all_eq, nonempty), 'g_n0 == 0 && g_m0 == 0'] +
                      (['g_n0 == g_m0 && g_n1 != g_m1 && %s == %s && %s' % (total(D, 'g_n'), total(D, 'g_m'), nonempty)] if D == 3 else []),
-              assigns=[], native=True, objbits=10 if D == 3 else None, timeout=1500)
+              assigns=[], native=True, objbits=10, timeout=1500, cbmc_flags=['--no-pointer-check'], tier='quick' if (D < 3 or nm == 'eq') else 'thorough')
+
+# ---------------------------------------------------------------------------------------------------------------------
+# ordering: <, >, <=, >= delegate to std::lexicographical_compare over begin()/end() of the leading dimension (recursively for D>1,
+# because the iterators' value type is the sub-view with the same operators).  std::lexicographical_compare is an ASSUMED ISO contract
+# (recording stub).  Proved: which ranges are handed over, in which order, and how the verdicts combine (a<=b iff a<b or a==b, a>b iff b<a).
+def ITc(D): return 'boost::multi::array_iterator<double,%d,double*,true,false,long>' % D
+def ITcn(D): return r'boost::multi::array_iterator<double, %dl, double\*, true, false, long>' % D
+
+def it_is(g, v, D, end):
+    """iterator ghost g (array_iterator<..D..>) is begin()/end() of view v"""
+    if D == 1:
+        P, S = ('%s.ptr_' % g, '%s.stride_' % g) if g == 'g_lx_b2' else ('%s_p' % g, '%s_s' % g)    # x86-64 ABI: three iterators in registers, the fourth in memory
+        return '%s == %s->base_%s && %s == %s->stride_' % (P, v, (' + %s->nelems_' % v) if end else '', S, v)
+    cs = ['%s.ptr_.base_ == %s->base_%s' % (g, v, (' + %s->nelems_' % v) if end else ''), '%s.stride_ == %s->stride_' % (g, v)]
+    for k in range(D-1): cs += ['%s.ptr_.layout_.%s%s == %s' % (g, 'sub_.'*k, x, lp(v, k+1, x)) for x in ('stride_', 'offset_', 'nelems_')]
+    return ' && '.join(cs)
+
+for D in (1, 2, 3):
+    G = ghosts_fn(D) + [(I64, 'g_m%d' % k) for k in range(D)]
+    all_eq = ' && '.join('g_n%d == g_m%d' % (k, k) for k in range(D))
+    nonempty = ' && '.join('g_n%d > 0 && g_m%d > 0' % (k, k) for k in range(D))
+    lexrec = [('g_lx_a1', 0, ITc(D)), ('g_lx_a2', 1, ITc(D)), ('g_lx_b1', 2, ITc(D)), ('g_lx_b2', 3, ITc(D))] if D > 1 else \
+             [('g_lx_a1_p', 0, None), ('g_lx_a1_s', 1, None), ('g_lx_a2_p', 2, None), ('g_lx_a2_s', 3, None), ('g_lx_b1_p', 4, None), ('g_lx_b1_s', 5, None), ('g_lx_b2', 6, ITc(1))]
+    lex = Stub(r'bool std::lexicographical_compare<' + ITcn(D) + ', ' + ITcn(D) + r' >\(.*', record=lexrec, ret='g_lex_ret', count='g_lex_calls')
+    eq = Stub(r'bool std::equal<boost::multi::elements_iterator_t<double const\*, boost::multi::layout_t<%dl, long> >, .*' % D,
+              record=[('g_eq_f1', 0, EIc(D)), ('g_eq_l1', 1, EIc(D)), ('g_eq_f2', 2, EIc(D))], ret='g_eq_ret', count='g_eq_calls')
+    def ranges(x, y):   # std::lexicographical_compare(x.begin(), x.end(), y.begin(), y.end())
+        return ' && '.join([it_is('g_lx_a1', x, D, False), it_is('g_lx_a2', x, D, True), it_is('g_lx_b1', y, D, False), it_is('g_lx_b2', y, D, True)])
+    common = dict(group='compare', params=['self', 'other'], cxx={'self': SUB(D), 'other': SUB(D)}, ghosts=G, mode='uf',
+                  requires=[view_ok('self', D, 'g_n'), view_ok('other', D, 'g_m')], lemmas=lemmas(D), assigns=[], objbits=10, timeout=1500, cbmc_flags=['--no-pointer-check'],
+                  covers=['g_n0 > 1 && g_m0 > 1 && g_n0 != g_m0', 'g_n0 == 0 && g_m0 > 0'])
+    CS1 = CSn(D)
+    ops = [('lt', '<', 'self', 'other', False), ('gt', '>', 'other', 'self', False), ('le', '<=', 'self', 'other', True)] + ([('ge', '>=', 'other', 'self', True)] if D == 1 else [])
+    for nm, op, x, y, with_eq in ops:
+        fn_re = (r'boost::multi::operator%s\(' % E(op) + CS1 + ' const&, ' + CS1 + r' const&\)') if D == 1 else (CS1 + r'::operator%s\(' % E(op) + CS1 + r' const&\) const &')
+        ens = [('[delegation] the ordering is delegated to exactly one call of std::lexicographical_compare' + (' (unless equality already decided)' if with_eq else ''),
+                ('IMPLIES(!(%s && g_eq_ret), g_lex_calls == 1)' % all_eq) if with_eq else 'g_lex_calls == 1'),
+               ('std::lexicographical_compare receives [%s.begin(), %s.end()) and [%s.begin(), %s.end()) in this order' % (x, x, y, y), 'IMPLIES(g_lex_calls == 1, %s)' % ranges(x, y))]
+        if with_eq:
+            ens += [('a %s b  iff  a == b or the strict comparison holds (equal extents)' % op, 'IMPLIES(%s && g_eq_calls == 1, RET == (g_eq_ret || g_lex_ret))' % all_eq),
+                    ('a %s b  is the strict comparison when the extents differ (non-empty operands)' % op, 'IMPLIES(!(%s) && %s, RET == g_lex_ret)' % (all_eq, nonempty))]
+        else:
+            ens += [('the verdict of the strict lexicographic comparison is returned', 'IMPLIES(g_lex_calls == 1, RET == g_lex_ret)')]
+        Check('Q%d_%s' % (D, nm), ['C07'], fn_re=fn_re, wrapper=('bool', 'CS<%d> const* self, CS<%d> const* other' % (D, D), 'return *self %s *other;' % op),
+              stubs=[lex] + ([eq] if with_eq else []), ensures=ens, tier='quick' if D < 3 else 'thorough', **common)
